@@ -87,8 +87,8 @@ CLAIMS = {
     'C08': ('other', 'static analysis: inertness/monotone-readiness entailment, integer-skeleton constant propagation for warm-up counts, interval/sign guard census',
             'Decides: None-path inertness for all views; monotone readiness for all 38 views by entailment from the inductive class invariant (N symbolic); '
             'warm-up thresholds of the 21 tabled views by constant propagation of the integer/typestate skeleton (floats unknown, must not branch on data) for '
-            'N ≤ 8 (quick) / 48 (thorough); a census showing every float division, log, sqrt and value assertion guarded on its path: derived by interval/sign analysis (with case splits) from the guards plus a table of reviewed facts (domain preconditions and state invariants justified elsewhere); a fact never discharges a site by itself.',
-            'Trusted: vg/solve/fsign/skeleton modules, 12 reviewed facts (sfa/e_ready.py ASSUMED) and one conditional exception (BinaryEntropy, tied to its is_nan reset). Not decided: overflow to inf from large finite inputs, NaN from cancellation. '
+            'N ≤ 8 (quick) / 48 (thorough); a census showing every float division, log, sqrt and value assertion guarded on its path: derived by interval/sign analysis (with case splits) from the guards plus facts (reviewed domain preconditions, or state invariants derived structurally on the analysed tree); a fact never discharges a site by itself.',
+            'Trusted: vg/solve/fsign/skeleton modules, 4 reviewed domain facts (sfa/e_ready.py ASSUMED: Alma sigma > 0, Divide divisor != 0, Drawdown/LnReturn positive inputs), facts derived on the analysed tree (constructor-only fields, buffer-sum accumulators, verified extrema, cross-term accumulators) and one conditional exception (BinaryEntropy, tied to its is_nan reset); exp() is taken as > 0 (no underflow: moderate parameters). Not decided: overflow to inf from large finite inputs, NaN from cancellation. '
             'Thresholds are for concrete N in the stated range only.',
             'DESIGN.md §5 C08', 'E2/E3/E7'),
     'C13': ('other', 'static analysis: term matching modulo commutativity, joint case analysis of registers, two-step symbolic composition on the value graph',
